@@ -4,6 +4,7 @@ namespace TantivyModel.Merge
 
 def isPlain : Ev → Bool
   | .startMerge _ => false
+  | .startMergeExplicit _ => false
   | .endMerge => false
   | _ => true
 
@@ -105,6 +106,75 @@ theorem startMerge_none_eq (s : Sys) (ids : List Nat) (hnone : s.running = none)
       by_cases hc : containsAll s.st.committed ids = true
       · rw [startMerge_com s ids hnone hnil hu' hc] at h; cases h
       · exact startMerge_noop s ids hnone (Or.inr ⟨hu', bool_false_of_not_true hc⟩)
+
+theorem startMergeExplicit_unc (s : Sys) (ids : List Nat) (hnone : s.running = none) (hnil : ids ≠ [])
+    (hu : containsAll s.st.uncommitted ids = true) :
+    s.step (.startMergeExplicit ids) =
+      { s with
+        running := some ⟨ids, mergeEntries s.st.queue (s.st.uncommitted.filter (inSources ids))
+          s.st.committedOpstamp s.nextId, s.st.epoch⟩,
+        nextId := s.nextId + 1 } := by
+  simp [Sys.step, hnone, hnil, hu]
+
+theorem startMergeExplicit_com (s : Sys) (ids : List Nat) (hnone : s.running = none) (hnil : ids ≠ [])
+    (hu : containsAll s.st.uncommitted ids = false) (hc : containsAll s.st.committed ids = true) :
+    s.step (.startMergeExplicit ids) =
+      { s with
+        running := some ⟨ids, mergeEntries s.st.queue (s.st.committed.filter (inSources ids))
+          s.st.committedOpstamp s.nextId, s.st.epoch⟩,
+        nextId := s.nextId + 1 } := by
+  simp [Sys.step, hnone, hnil, hu, hc]
+
+theorem startMergeExplicit_noop (s : Sys) (ids : List Nat) (hnone : s.running = none)
+    (h : ids = [] ∨ (containsAll s.st.uncommitted ids = false ∧ containsAll s.st.committed ids = false)) :
+    s.step (.startMergeExplicit ids) = s := by
+  rcases h with h | ⟨hu, hc⟩
+  · simp [Sys.step, hnone, h]
+  · by_cases hnil : ids = []
+    · simp [Sys.step, hnone, hnil]
+    · simp [Sys.step, hnone, hnil, hu, hc]
+
+/-- what an explicit merge start does (no merge in flight before) -/
+theorem startMergeExplicit_shape (s : Sys) (ids : List Nat) (hnone : s.running = none) (r0 : Running)
+    (h : (s.step (.startMergeExplicit ids)).running = some r0) :
+    (s.step (.startMergeExplicit ids)).st = s.st ∧ (s.step (.startMergeExplicit ids)).nextId = s.nextId + 1 ∧
+    (∃ d, (s.step (.startMergeExplicit ids)).stamp = s.stamp + d) ∧
+    r0.sources = ids ∧ ids ≠ [] ∧ containsAll (s.st.uncommitted ++ s.st.committed) ids = true ∧
+    r0.epoch = s.st.epoch ∧ ∀ m ∈ r0.merged.toList, m.segId = s.nextId := by
+  by_cases hnil : ids = []
+  · rw [startMergeExplicit_noop s ids hnone (Or.inl hnil), hnone] at h; cases h
+  · by_cases hu : containsAll s.st.uncommitted ids = true
+    · rw [startMergeExplicit_unc s ids hnone hnil hu] at h ⊢
+      simp only [Option.some.injEq] at h
+      subst h
+      refine ⟨rfl, rfl, ⟨0, rfl⟩, rfl, hnil,
+        containsAll_mono _ _ _ (fun e he => List.mem_append_left _ he) hu, rfl, ?_⟩
+      intro m hm
+      simp only [Option.mem_toList] at hm
+      exact (mergeEntries_some_props _ _ _ _ m hm).1
+    · have hu' := bool_false_of_not_true hu
+      by_cases hc : containsAll s.st.committed ids = true
+      · rw [startMergeExplicit_com s ids hnone hnil hu' hc] at h ⊢
+        simp only [Option.some.injEq] at h
+        subst h
+        refine ⟨rfl, rfl, ⟨0, rfl⟩, rfl, hnil,
+          containsAll_mono _ _ _ (fun e he => List.mem_append_right _ he) hc, rfl, ?_⟩
+        intro m hm
+        simp only [Option.mem_toList] at hm
+        exact (mergeEntries_some_props _ _ _ _ m hm).1
+      · rw [startMergeExplicit_noop s ids hnone (Or.inr ⟨hu', bool_false_of_not_true hc⟩), hnone] at h
+        cases h
+
+theorem startMergeExplicit_none_eq (s : Sys) (ids : List Nat) (hnone : s.running = none)
+    (h : (s.step (.startMergeExplicit ids)).running = none) : s.step (.startMergeExplicit ids) = s := by
+  by_cases hnil : ids = []
+  · exact startMergeExplicit_noop s ids hnone (Or.inl hnil)
+  · by_cases hu : containsAll s.st.uncommitted ids = true
+    · rw [startMergeExplicit_unc s ids hnone hnil hu] at h; cases h
+    · have hu' := bool_false_of_not_true hu
+      by_cases hc : containsAll s.st.committed ids = true
+      · rw [startMergeExplicit_com s ids hnone hnil hu' hc] at h; cases h
+      · exact startMergeExplicit_noop s ids hnone (Or.inr ⟨hu', bool_false_of_not_true hc⟩)
 
 /-! ### a merge survives the end of another merge -/
 
